@@ -407,3 +407,16 @@ func Tail(j []memsql.Entry, n int) string {
 	}
 	return out
 }
+
+// OpenWith opens another handle on the same server with different DSN parameters
+// (driver = memsql.DriverName, ATDriver or XADriver).
+func (e *Env) OpenWith(driverName, params string) *sql.DB {
+	db, err := sql.Open(driverName, "u:p@tcp("+Addr+")/"+Schema+"?"+params)
+	if err != nil {
+		panic(err)
+	}
+	if err = db.Ping(); err != nil {
+		panic(err)
+	}
+	return db
+}
